@@ -20,6 +20,9 @@ package cafs
 //@   loop 1 invariant [written] 0 <= written && written <= len(p)
 //@   loop 1 invariant [stream] w.count*w.leafSize + w.offset == old(w.count*w.leafSize + w.offset) + written
 //@   loop 1 decreases len(p) - written
+//@   call pFlush#1 assert [full-leaf] $isLastNode == false && len($buffer) == w.leafSize
+//@   call pFlush#1 assert [own-buffer] $buffer == w.buf
+//@   call pFlush#1 assert [leaf-number] $count == w.count && $leafSize == w.leafSize
 
 // ---- leaf / root hashing configuration (C02: the on-disk BLAKE2b tree convention) --------------
 // H itself (minio/blake2b-simd) is trusted; what is proved is that the hasher is configured with
@@ -97,12 +100,13 @@ package cafs
 // (i, true); every other leaf with (i+1, false) -- exactly what Write/flush do on the way in.
 
 //@ func readLeafFunc$1
+//@   requires index >= 0
 //@   call r.pather#1 pure
-//@   call Bytes#3 bind b3 = $ret0
-//@   call Bytes#4 bind b4 = $ret0
+//@   call Bytes#4 bind b3 = $ret0
+//@   call Bytes#5 bind b4 = $ret0
 //@   call verifyHash#1 assert [key] $key == k
 //@   call verifyHash#1 assert [data] b4_set && $data == b4
-//@   call verifyHash#1 assert [last-flag] b3_set && ($isLastNode == (index+1 == len(r.keys) && uint32(len(b3)) != r.leafSize))
+//@   call verifyHash#1 assert [last-flag] $isLastNode == (index+1 == len(r.keys) && b3_set && uint32(len(b3)) != r.leafSize)
 //@   call verifyHash#1 assert [node-offset] $offset == ite($isLastNode, index, index+1)
 //@   call verifyHash#1 bind vh = $ret0
 //@   ensures [verified] r.withVerifyHash && ret2 == nil && ret0 != nil && !ret1 ==> vh_set && vh == nil
@@ -116,6 +120,8 @@ package cafs
 //@   call verifyHash#1 assert [node-offset] $offset == ite($isLastNode, r.idx - 1, r.idx)
 //@   call verifyHash#1 bind vh = $ret0
 //@   loop 1 invariant [verified] old(r.withVerifyHash) && r.idx != old(r.idx) ==> vh_set && vh == nil
+//@   loop 1 invariant [idx] 0 <= r.idx && r.idx < len(r.keys)
+//@   loop 1 invariant [config] r.withVerifyHash == old(r.withVerifyHash)
 //@   ensures [verified] old(r.withVerifyHash) && r.idx != old(r.idx) && (ret1 == nil || ret0 > 0) ==> vh_set && vh == nil
 
 //@ func calculateKeyAndOffset
@@ -140,3 +146,10 @@ package cafs
 
 //@ func verificationKey
 //@   ensures [long-enough] ret1 == nil ==> len(data) >= 64
+
+// ---- random access reads: no slice ever goes out of bounds, for every offset / length (C01, C17) ---
+//@ func (*chunkReader).ReadAt
+//@   requires r != nil && off >= 0 && r.leafSize > 0
+//@   call r.pather#1 pure
+//@   loop 1 invariant [bounds] 0 <= readBytes && readBytes <= len(data) && 0 <= index && index < len(r.keys) && offset >= 0
+//@   ensures [count] 0 <= readBytes && readBytes <= len(data)
